@@ -3,7 +3,8 @@
    patterns with all NaNs identified, integers are unbounded Z.  Sets, frozensets and dicts
    carry their elements in the iteration order of the Python object (the harness compares
    them without order).  VUuid / VDecimal carry str(x); VDate carries toordinal() and
-   isoformat() (both are data of the value, computed by Python).  VExt is a
+   isoformat(); VDateTime (a naive datetime.datetime) carries its microseconds since 0001-01-01 and
+   isoformat() (all data of the value, computed by Python).  VExt is a
    msgpack.ExtType(code, data) object whose data encodes [payload] — it only ever appears
    as something a method *receives* when a decode path lacks its ext_hook. *)
 From Coq Require Import List NArith ZArith Bool.
@@ -29,6 +30,7 @@ Inductive val :=
 | VUuid (s : text)
 | VDecimal (s : text)
 | VDate (ord : Z) (iso : text)
+| VDateTime (key : Z) (iso : text)
 | VExt (code : N) (payload : val).
 
 Fixpoint text_eqb (a b : text) : bool :=
